@@ -22,6 +22,8 @@ type Tok struct {
 	// BodyClose the closing delimiter of the matching end tag.
 	BodyOpen  bool
 	BodyClose bool
+	// Cont marks the second word of a two-word operator ("in" of "not in").
+	Cont bool
 }
 
 // Pos is a source position: 1-based line, 0-based byte column.
@@ -47,6 +49,16 @@ func (p *printer) raw(s, kind, anchor string) {
 func (p *printer) tok(s, kind, sp, anchor string) *Tok {
 	p.toks = append(p.toks, Tok{S: s, In: true, Sp: sp, Kind: kind, Anchor: anchor, AAlt: -1, Depth: p.depth})
 	return &p.toks[len(p.toks)-1]
+}
+
+// opTok emits a binary operator. The words of "not in", "is not", "starts
+// with" and "ends with" are separate tokens of the spelling: any whitespace
+// may stand between them (repair of 2026-09-26; they used to need exactly
+// one blank).
+func (p *printer) opTok(s string) {
+	for i, w := range strings.Split(s, " ") {
+		p.tok(w, "op", " ", "").Cont = i > 0
+	}
 }
 
 func (p *printer) open(delim string, trim bool) {
@@ -165,7 +177,7 @@ func (p *printer) expr(e *E, sp string) {
 		p.operand(e.A[0], osp)
 	case "bin":
 		p.operand(e.A[0], sp)
-		p.tok(e.S, "op", " ", "")
+		p.opTok(e.S)
 		p.operand(e.A[1], " ")
 	case "cond":
 		p.operand(e.A[0], sp)
@@ -248,7 +260,7 @@ func (p *printer) expr(e *E, sp string) {
 	case "test":
 		p.operand(e.A[0], sp)
 		if e.B {
-			p.tok("is not", "op", " ", "")
+			p.opTok("is not")
 		} else {
 			p.tok("is", "op", " ", "")
 		}
